@@ -36,6 +36,19 @@ theorem chainProcess_append (s : List (ProbeFx ℝ)) (xs ys : List (Frame ℝ)) 
 theorem chain_good (dt : ℝ) (info : Info ℝ) : (chain : FxChain ℝ (List (ProbeFx ℝ))).Good dt info :=
   ⟨fun s xs => chainProcess_length s xs, fun s xs ys => chainProcess_append s xs ys⟩
 
+/-- a probe effect with no offset and no feedback multiplies every frame by its gain, whatever its state -/
+theorem process_gain_only (p : ProbeFx ℝ) (ho : p.offset = 0) (hf : p.feedback = 0) (xs : List (Frame ℝ)) :
+    (p.process xs).2 = xs.map (fun f => f.scale p.gain) := by
+  induction xs generalizing p with
+  | nil => rfl
+  | cons x xs ih =>
+    have h1 : (p.step x).1.offset = 0 := ho
+    have h2 : (p.step x).1.feedback = 0 := hf
+    have h3 : (p.step x).1.gain = p.gain := rfl
+    have h4 : (p.step x).2 = x.scale p.gain := by
+      ext <;> simp [step, chan, ho, hf]
+    simp only [process, List.map_cons, ih _ h1 h2, h3, h4]
+
 /-- a probe effect at rest with no offset -/
 def Quiet (p : ProbeFx ℝ) : Prop := p.offset = 0 ∧ p.prev = Frame.zero
 
